@@ -335,6 +335,13 @@ def run(ctx):
     class DH(QHooks):
         def __init__(self):
             self.tab = {}
+            self.seen = {}
+
+        def tracked_global(self, path):
+            return path.startswith('G:htypeseen') or path.startswith('$')
+
+        def precise_arith(self, path):
+            return True
 
         def prim_hfield_known(self, E, x, args):
             return [Outcome(ret=fs(v), sets={'$h': fs(v)}) for v in range(0, 29)]
@@ -365,6 +372,7 @@ def run(ctx):
             if g1(E, '$early'):
                 return
             self.tab.setdefault(h, set()).add((g1(E, '$rw'), g1(E, '$saved', 0)))
+            self.seen.setdefault(h, set()).add(g1(E, 'G:htypeseen[%s]' % h, 0))
 
         def on_branch(self, E, cond, truth):
             if cond.path() in ('G:flagdeletefrom', 'G:flagdeletemessid', 'G:flagdeletesender') and truth is True:
@@ -396,6 +404,9 @@ def run(ctx):
             if (saved == 1) == (h in nosave):
                 bad.append((inv.get(h, h), 'saved=%s' % saved))
     r4.check(not bad, 'header-kind->(recipient-list,saved)', 'qmail-inject.c:doheaderfield', 'deviations: %s' % bad[:6])
+    notseen = [inv.get(h, h) for h in range(1, 29) if dh.seen.get(h) != {1}]
+    r4.check(not notseen, 'every-recognised-field-is-recorded-as-seen', 'qmail-inject.c:doheaderfield',
+             'fields processed without htypeseen[] being set: %s; the choice between the Resent- recipients and the original ones (and the fields added at the end) is made from these marks, also for fields that are not copied to the output such as Resent-Bcc' % notseen[:8])
     lists = {}
     for nm in ('rwtocc', 'rwhr', 'rwhrr'):
         f = prog.fn(nm, 'qmail-inject.c')
